@@ -790,9 +790,9 @@ func (h *history) leave() {
 	h.srv.Handle.CleanupTimeoutClient()
 	h.srv.Handle.CleanupUnknownCondition()
 	// The timeout pass deletes from a goroutine; nothing is judged before it has ended (found by name in the goroutine dump).
-	if !vkit.WaitFor(5*time.Second, noCleanupGoroutine) {
+	if !vkit.WaitFor(30*time.Second, noCleanupGoroutine) {
 		h.dead = true
-		h.r.Inconclusive("a cleanupTimeoutClient goroutine was still present 5 s after the pass")
+		h.r.Inconclusive("a cleanupTimeoutClient goroutine was still present 30 s after the pass")
 		return
 	}
 	h.gone = append(h.gone, w)
